@@ -41,7 +41,7 @@ CLAIMED = {
     "C19": dict(
         cat="exploration",
         text="(a) For every signed digest / identity hash a structured generator fills every field and derives single-field mutants: different encodings must give different digests unless the field is on a declared, justified outside-list, and for consensus messages a receiver differential on real BFT replicas / the real state machine decides whether an unsigned field changes what an authenticated sender made the receiver do; (b) all 53 store key builders are checked for injectivity, cross-builder collisions and prefix-range containment over hostile component tuples admitted by the callers; (c) structured mutation, an exhaustive hostile-length sweep and (thorough) native fuzzing drive the decoders and the handlers behind them (CheckBasic, CheckTx + proposer-mode ApplyBlock, certificate check, BFT.HandleMessage): no panic, no ErrPanic, unknown fields rejected where claimed, state unchanged on rejection.",
-        note="Hash functions and signature schemes assumed secure (injectivity is structural); controller.HandlePeerBlock and the p2p receive loop are covered by C02/C11/C18, not here; 'meaning differs' for unsigned fields is decided by observable receiver behaviour in the harness' mock controller.",
+        note="Hash functions and signature schemes assumed secure (injectivity is structural); controller.HandlePeerBlock and the p2p receive loop are covered by C02/C11/C18, not here; 'meaning differs' for unsigned fields is decided by observable receiver behaviour in the harness' mock controller (which runs the real CheckProposalBasic); two open known findings (election-vote fields outside the vote signature; a relayed proposal copy with altered unbound block bytes replaces the honest one) are excluded by construction (counted in evidence) and printed as KNOWN-FINDING.",
         tech=PBT + "single-field mutation + receiver differential, key-space injectivity, structure-aware decoder fuzzing; native go fuzz targets in the thorough tier"),
     "C20": dict(
         cat="exploration",
@@ -66,17 +66,17 @@ CLAIMED = {
     "C04": dict(
         cat="exploration",
         text="Generated histories mixing all expressible message types, certificate results (rewards, non-signers, double-signers, order lock/close/reset), really signed certificate-results transactions of a second committee, governance changes, halvenings, faucet and amounts from 0 to 2^64-1: after every block, from a raw scan in big integers, total supply = accounts + pools + stakes, no amount exceeds the total, and the block-to-block change of the total equals scheduled mint + approved DAO mints + faucet top-ups - slash burns - undistributed reward remainder. Held on everything explored.",
-        note="The mint/burn accounting is re-derived by the harness from params, events and records (trusted model); no vesting sends, retired committees or DEX batches inside certificate results (those are C20's).",
+        note="The mint/burn accounting is re-derived by the harness from params, events and records (trusted model); no vesting sends and no DEX batches inside certificate results (those are C20's); retired committees only through certificate results of the second committee.",
         tech=PBT + "stateful history generation with a big-integer conservation invariant and an independently re-derived mint/burn ledger"),
     "C01": dict(
         cat="exploration",
-        text="N in 4..7 real bft.BFT replicas (real BLS votes) run one height under a generated adversarial schedule: scenario families F1-F6 (lossy/reordering network, equivocating Byzantine leader with double votes, withheld +2/3 certificate re-proposed later as highQC with and without a root-height bump, partial COMMIT delivery, replay of any earlier message/certificate re-signed by Byzantine keys, threshold-boundary stake distributions), Byzantine power strictly < 1/3. After every step: all commits of correct replicas at the height agree, the committed block was proposed, the committing certificate recounts to >= floor(2T/3)+1 in big integers with only true signers, and no correct replica signs two payloads in one view. Held on everything explored.",
+        text="N in 4..7 real bft.BFT replicas (real BLS votes) run one height under a generated adversarial schedule: scenario families F1-F7 (lossy/reordering network, equivocating Byzantine leader with double votes, withheld +2/3 certificate re-proposed later as highQC with and without a root-height bump, partial COMMIT delivery, replay of any earlier message/certificate re-signed by Byzantine keys, threshold-boundary stake distributions), Byzantine power strictly < 1/3. After every step: all commits of correct replicas at the height agree, the committed block was proposed, the committing certificate recounts to >= floor(2T/3)+1 in big integers with only true signers, and no correct replica signs two payloads in one view. Held on everything explored.",
         note="Bounded: n <= 7, one height per case, <= 8 rounds per root height, <= 2 root bumps; committee-changing updates are excluded by the property; the mock controller accepts any well-formed proposal and mirrors the certificate gate of HandlePeerBlock.",
         tech=PBT + "generated adversarial schedules / Byzantine scenario families against safety invariants over the recorded history"),
     "C15": dict(
         cat="exploration",
         text="Bounded liveness on a harness-owned clock: any generated C01-style adversarial prefix (plus conflicting locks and partitions) is cut at a generated point (GST); afterwards correct replicas (> 2/3) fire at now + WaitTime(phase, round), messages between correct replicas arrive within a generated delta below the smallest phase timeout, Byzantine validators (< 1/3) are silent, equivocate or inflate pacemaker rounds. Every correct replica must commit within r_sync + B + 1 rounds after GST (B = suffix rounds whose predicted leader is Byzantine; r_sync calibrated once over > 20 000 cases and frozen at 2) - plus a stated allowance when replicas are spread over rounds at GST. Held on everything explored.",
-        note="Decides the bounded form only: not 'eventually' on real timers; timeouts restricted to a ratio <= 2 (the code re-aligns replicas in time only through wait-time growth); one open known finding (locked proposal loses its evidence) is excluded by construction and printed as KNOWN-FINDING.",
+        note="Decides the bounded form only: not 'eventually' on real timers; timeouts restricted to a ratio <= 2 (the code re-aligns replicas in time only through wait-time growth); two open known findings (locked proposal loses its evidence; HighQc reported with a forged build height) are excluded by construction and printed as KNOWN-FINDING.",
         tech=PBT + "adversarial prefix + virtual-time discrete-event suffix with a calibrated round bound"),
     "C02": dict(
         cat="exploration",
@@ -91,12 +91,12 @@ CLAIMED = {
     "C11": dict(
         cat="exploration",
         text="Three real controller nodes: A's mempool receives a generated mix (valid, stateful-failing, conflicting, oversize relative to a lowered block size, unusually encoded, hostile values); every proposal A builds must validate on B (and A must be able to build one); both commit through HandlePeerBlock with a really signed certificate; after k heights a fresh node is fed A's archived block+certificate for every height (also after A restarted, after RPC-style header lookups on cold heights, with nodes holding different certificate versions) and must reach the same block hashes and state roots; served bytes must equal the certified bytes. Held on everything explored.",
-        note="finishSyncing, listeners and the Sync loop are not driven (direct calls in production order); checkpoint heights >= 100 not reached.",
+        note="finishSyncing, listeners and the Sync loop are not driven (direct calls in production order); checkpoint height 100 is crossed in one chain of five (97-height snapshot), later checkpoints are not reached.",
         tech=PBT + "generated mempool contents, proposer/replica/fresh-sync differential on real controller nodes"),
     "C07": dict(
         cat="exploration",
         text="(a) transaction level: generated blocks with transactions engineered to fail late (after fee deduction / partial transfers), back-to-back failures, failures next to valid transactions on the same account/pool/params: proposer-mode ApplyBlock must never fail as a whole, included and failed lists partition the input in order, and a fork executing exactly the included transactions in replica mode must give the same header hash, state scan, results and events; (b) block level: a real controller node is offered generated bad proposals / peer blocks / sync blocks (wrong header fields, wrong results, failing transaction inside, bad last certificate, bad certificate) interleaved with good ones while a twin sees only the good ones: after every rejection committed version, state, working state and indexes equal the twin's and both stay in lock-step. Held on everything explored.",
-        note="No transaction emits events or slashes and then fails in a well-formed state (code reading), so those two restore paths are not observable from transactions; same-block byte-identical duplicates are excluded (the mempool de-duplicates by hash).",
+        note="Events / slash-tracker restore paths are observable only through certificate-results transactions of a nested chain that fail late (generated by TestC07aAtomicity / TestC07aSlashTracker) and blocks rejected inside BeginBlock (TestC07aRejectedBeginBlock); same-block byte-identical duplicates are excluded (the mempool de-duplicates by hash).",
         tech=PBT + "metamorphic relation (block with vs. without its failing transactions) + twin-node differential under generated rejections"),
     "C05": dict(
         cat="exploration",
